@@ -35,7 +35,7 @@ type c20Line struct {
 var c20Known = map[string]string{
 	"print-num": "1\n", "print-str": "hi\n", "print-arith": "7\n", "expr-num": "5\n", "expr-arith": "3\n", "expr-str": "abc\n",
 	"expr-true": "true\n", "expr-nil": "nil\n", "rt-mid-line": "1\n", "rt-in-for": "0\n", "multi-var-print": "4\n", "multi-func": "16\n",
-	"multi-for": "0\n1\n", "rt-print-then-fail-in-func": "8\n", "long-print-ascii": c20Long(5000, "x") + "\n", "long-print-bangla": c20Long(1500, "\u0995") + "\n", "long-expr": "1401\n", "huge-print": c20Long(70000, "z") + "\n", "long-rt": c20Long(4090, "y") + "\n", "str-backslash": "a\\b\n",
+	"multi-for": "0\n1\n", "rt-print-then-fail-in-func": "8\n", "long-print-ascii": c20Long(5000, "x") + "\n", "long-print-bangla": c20Long(1500, "\u0995") + "\n", "long-expr": "1401\n", "input-one": "p[hello]\n", "input-two": "abcd\n", "input-echo": "spaced out\n", "huge-print": c20Long(70000, "z") + "\n", "long-rt": c20Long(4090, "y") + "\n", "str-backslash": "a\\b\n",
 }
 
 func c20Long(n int, unit string) string { return strings.Repeat(unit, n) }
@@ -100,6 +100,12 @@ var c20Pool = []c20Line{
 	{"long-expr", "long", "1" + c20Long(1400, " + 1") + ";"},
 	{"long-rt", "long-rt", KwPrint + " \"" + c20Long(4090, "y") + "\"; nx;"},
 	{"huge-print", "long", KwPrint + " \"" + c20Long(70000, "z") + "\";"},
+	// lines that read their data from the following stdin line(s): the data belongs to
+	// the line that asked for it, whatever way stdin is delivered
+	{"input-one", "input", KwPrint + " \"[\" + " + FnInput + "(\"p\") + \"]\";\nhello"},
+	{"input-two", "input", KwPrint + " " + FnInput + "() + " + FnInput + "();\nab\ncd"},
+	{"input-then-fail", "input-rt", KwPrint + " " + FnInput + "(\"q\") + nx;\nzz"},
+	{"input-echo", "input", FnInput + "();\n  spaced out  "},
 	// silent statements
 	{"silent-var", "silent", KwVar + " y = 5;"},
 	{"silent-block", "silent", "{ }"},
